@@ -23,7 +23,7 @@ package expand
 //@ func handlerDependencies.ReadOnlyMapper
 //@   trusted
 //@   pure
-//@   ensures result != nil && result.ReadOnly
+//@   ensures result != nil && result.ReadOnly && result.D != nil
 //@ func handlerDependencies.ExpandEngine
 //@   trusted
 //@   pure
@@ -37,6 +37,7 @@ package expand
 //@   requires wfx(e) && ctx != nil && wfsubject(subject)
 //@   modifies db, faulted
 //@   ensures[C17] read-only: db == old(db)
+//@   ensures[C16] well-formed-tree: result0 != nil ==> wftree(result0)
 
 // The clamp is applied at every level; the recursive call passes a depth >= 1 that is
 // strictly smaller than the effective depth, so the callee's clamp is the identity and
@@ -52,6 +53,10 @@ package expand
 //@   ensures[C17] read-only: db == old(db)
 //@   ensures[C07] all-pages-read: result1 == nil && result0 != nil && istype(subject, *relationtuple.SubjectSet) && result0.Type != ketoapi.TreeNodeLeaf ==> nextPage == ""
 //@   ensures[C09] visited-or-empty-is-nil: result1 != nil ==> result0 == nil
+//@   ensures[C16] well-formed-tree: result0 != nil ==> wftree(result0)
+//@   loop 1 invariant[C16] subTree.Subject == subject && (forall k in 0..len(subTree.Children) :: wftree(subTree.Children[k]))
+//@   loop 2 invariant[C16] forall k in 0..$n :: wftree(children[k])
+//@   loop 2 invariant[C16] subTree.Subject == subject && (forall k in 0..len(subTree.Children) :: wftree(subTree.Children[k]))
 //@   loop 1 invariant (isnil(subTree.Children) || fresh(subTree.Children)) && (ok || nextPage == "")
 //@   loop 1 invariant subTree != nil && fresh(subTree) && subSet != nil && db == old(db) && restDepth == effx(old(restDepth), globalMaxDepth) && restDepth >= 1 && ctx != nil
 //@   loop 2 invariant children != nil && len(children) == len(rels) && fresh(children) && db == old(db) && subTree != nil && ctx != nil
